@@ -169,7 +169,12 @@ def main():
             continue
         rng = ctx.rng(hid)
         set_globals(api, defaults)
+        held = len(fa._FMM_CACHE) + len(fa._FMM_POTENTIAL_CACHE)
         api.clear_fmm_cache()
+        ctx.count("clear_fmm_cache_postconditions")
+        ctx.note_max("fmm_interfaces_held_before_a_clear", held)
+        if len(fa._FMM_CACHE) + len(fa._FMM_POTENTIAL_CACHE):
+            ctx.violation("clear_fmm_cache:interfaces_survive", "%s start: %d FMM interfaces were cached before clear_fmm_cache() and %d are still cached after it" % (hid, held, len(fa._FMM_CACHE) + len(fa._FMM_POTENTIAL_CACHE)), hid)
         grids = {n: M.to_grid(m) for n, m in ms.items()}
         spaces = {}
         handles = []   # dict(op, cfg, mesh, eff (values at construction), explicit (param object or None), constructed_globals, observed)
@@ -226,7 +231,15 @@ def main():
                         trace.append(["mutate_explicit_parameters", hd["cfg"][0], o[0], o[1]])
                         events += 1
                 elif ev == "clear_cache":
+                    held = len(fa._FMM_CACHE) + len(fa._FMM_POTENTIAL_CACHE)
                     api.clear_fmm_cache()
+                    # post-condition of the event itself: the classifier below attributes stale-interface reuse to the cache key
+                    # only while an interface legitimately is in the cache, so a clear that does not clear must not hide there
+                    left = len(fa._FMM_CACHE) + len(fa._FMM_POTENTIAL_CACHE)
+                    ctx.count("clear_fmm_cache_postconditions")
+                    ctx.note_max("fmm_interfaces_held_before_a_clear", held)
+                    if left:
+                        ctx.violation("clear_fmm_cache:interfaces_survive", "%s step %d: %d FMM interfaces were cached before clear_fmm_cache() and %d are still cached after it" % (hid, step, held, left), hid)
                     fmm_orders_cached.clear()
                     trace.append(["clear_fmm_cache"])
                     events += 1
